@@ -7,6 +7,7 @@ mod model;
 mod node;
 mod rng;
 mod t1;
+mod t12c;
 mod t15;
 mod t16;
 mod t17;
